@@ -138,6 +138,7 @@ def _walk(prop, tier, build, depth, stride, dec):
         for pi, p in enumerate(paths):
             f.readline()                      # the `new` event
             exp = []
+            rejected = []
             st, buf = FRESH, b""
             dead = False
             for pos in range(D):
@@ -148,6 +149,7 @@ def _walk(prop, tier, build, depth, stride, dec):
                 e = json.loads(raw)
                 cls, r, data, unspec, line, st2, buf2 = expected_step(table, st, buf, p[pos], pos)
                 exp.append((cls, r, data, unspec, line))
+                rejected.append(e["r"] in ("err_nmea", "err_checksum"))
                 if dec and r == "complete":
                     r, data = "err_nmea", None       # the payload cannot decode: a payload-level error
                 classes[cls] = classes.get(cls, 0) + 1
@@ -178,7 +180,7 @@ def _walk(prop, tier, build, depth, stride, dec):
                     why, tags = "payload of %s differs from the fragments of its group" % cls, ["C05", "C06"] if cls == "deliver" else ["C05"]
                 if why:
                     # attribution: does the mismatch disappear when the removable lines before it are removed?
-                    removable_before = [i for i in range(pos) if exp[i][0] in REMOVABLE and not exp[i][3]]
+                    removable_before = [i for i in range(pos) if exp[i][0] in REMOVABLE and (not exp[i][3] or rejected[i])]
                     if removable_before and tags != ["C01"]:
                         reduced = [p[i] for i in range(pos + 1) if i not in removable_before]
                         if _single_path_ok(rec, table, reduced, wdir, dec):
